@@ -71,6 +71,41 @@ func buildCorpus(g *model.Gen, perKind int) []corpusItem {
 	return out
 }
 
+func bytesOf(v byte, n int) []byte {
+	b := make([]byte, n)
+	for i := range b {
+		b[i] = v
+	}
+	return b
+}
+
+// forceWidth makes every head of the tree use a w-byte argument (values that
+// do not fit keep their minimal width).
+func forceWidth(n *refcbor.Node, w int) {
+	fits := func(v uint64) bool { return w == 8 || v < 1<<(8*uint(w)) }
+	switch n.K {
+	case refcbor.Uint, refcbor.Nint, refcbor.Tag:
+		if fits(n.U) {
+			n.ArgW = w
+		}
+	case refcbor.Bytes, refcbor.Text:
+		if fits(uint64(len(n.B))) {
+			n.ArgW = w
+		}
+	case refcbor.Array:
+		if fits(uint64(len(n.Items))) {
+			n.ArgW = w
+		}
+	case refcbor.Map:
+		if fits(uint64(len(n.Items) / 2)) {
+			n.ArgW = w
+		}
+	}
+	for _, it := range n.Items {
+		forceWidth(it, w)
+	}
+}
+
 type hostileRunner struct {
 	c    *mon.Ctx
 	eps  []entryPoint
@@ -126,7 +161,7 @@ func (h *hostileRunner) run(family, class string, input []byte) {
 }
 
 func runC05(c *mon.Ctx) {
-	c.Rule("inputs: (A) structure-aware mutants of valid CBOR claims (P1, P2, both extension profiles), component lists, COSE envelopes (also mutated inside the payload and inside the protected header) and serialisations of 7 codec shapes: at a random node of the independent AST replace by null / undefined / empty and boundary values of every type / tag- / array- / bstr-wrap, delete, duplicate (same key twice), swap, then re-encode with random non-minimal and indefinite lengths; (B) the same on JSON documents (member := null / \"\" / [] / {} / numbers beyond 64 bit / wrong type, delete, duplicate incl. case variants, rename, swap); (C) byte level: truncation at every offset, all 256 substitutions at every offset of sample items, random splices of two items, insertions, deletions, lone header bytes of every major type at the end of input, random strings; each input goes to every decoding entry point of its family (COSE evidence x3, dispatching CBOR/JSON decoders validating and not, deprecated aliases, P1/P2/extension/container unmarshal methods, encoding.PopulateStructFromCBOR/JSON on flat / embedded / interface-embedded shapes) under recover(); whatever is returned without error is validated, read through every getter and component getter, re-encoded (CBOR, JSON, validating and not), attached, verified against 8 keys/non-keys. One child process per shard with a write-ahead log; the supervisor attributes process deaths (fatal errors) to the in-flight input and resumes after it. Oracle: no panic, no process death. distinct_nontrivial = distinct (family, kind, mutation classes) signatures")
+	c.Rule("inputs: (A) structure-aware mutants of valid CBOR claims (P1, P2, both extension profiles), component lists, COSE envelopes (also mutated inside the payload and inside the protected header) and serialisations of 7 codec shapes: at a random node of the independent AST replace by null / undefined / empty and boundary values of every type / tag- / array- / bstr-wrap, delete, duplicate (same key twice), swap, then re-encode with random non-minimal and indefinite lengths; (B) the same on JSON documents (member := null / \"\" / [] / {} / numbers beyond 64 bit / wrong type, delete, duplicate incl. case variants, rename, swap); (C) byte level: every possible header byte followed by 0..9 argument bytes (bare, behind tags, as a map value); truncation at every offset of items re-encoded with all arguments forced to 1/2/4/8 bytes; truncation at every offset, all 256 substitutions at every offset of sample items, random splices of two items, insertions, deletions, lone header bytes of every major type at the end of input, random strings; each input goes to every decoding entry point of its family (COSE evidence x3, dispatching CBOR/JSON decoders validating and not, deprecated aliases, P1/P2/extension/container unmarshal methods, encoding.PopulateStructFromCBOR/JSON on flat / embedded / interface-embedded shapes) under recover(); whatever is returned without error is validated, read through every getter and component getter, re-encoded (CBOR, JSON, validating and not), attached, verified against 8 keys/non-keys. One child process per shard with a write-ahead log; the supervisor attributes process deaths (fatal errors) to the in-flight input and resumes after it. Oracle: no panic, no process death. distinct_nontrivial = distinct (family, kind, mutation classes) signatures")
 	if err := extprof.Register(extprof.ExtP2Name, extprof.ExtP1Name); err != nil {
 		c.Violation("harness/register", err.Error(), nil)
 		return
@@ -159,6 +194,45 @@ func runC05(c *mon.Ctx) {
 			it := pick("cbor")
 			h.run("cbor", "header-before-item", append(append([]byte{}, b...), it.bytes...))
 			h.run("cbor", "header-after-item", append(append([]byte{}, it.bytes...), b...))
+		}
+	}
+	// every header byte followed by 0..9 further bytes (argument bytes that
+	// are partly or wholly missing), also behind a tag / inside a map
+	for hb := 0; hb < 256; hb++ {
+		if !c.Mine(hb) {
+			continue
+		}
+		for follow := 0; follow <= 9; follow++ {
+			for _, fill := range []byte{0x00, 0xff, 0x01} {
+				b := append([]byte{byte(hb)}, bytesOf(fill, follow)...)
+				h.run("cbor", "header+k-bytes", b)
+				h.run("cbor", "tag+header+k-bytes", append([]byte{0xc1}, b...))
+				h.run("cbor", "tag24+header+k-bytes", append([]byte{0xd8, 0x18}, b...))
+				h.run("cose", "tag18+header+k-bytes", append([]byte{0xd2}, b...))
+				h.run("cbor", "map-entry+header+k-bytes", append([]byte{0xa1, 0x01}, b...))
+			}
+		}
+	}
+	c.Sig("header+k-bytes")
+	// truncations of items re-encoded with every argument width forced to 1/2/4/8 bytes
+	for wi, w := range []int{1, 2, 4, 8} {
+		for fi, fam := range []string{"cbor", "cose"} {
+			if !c.Mine(wi*2 + fi) {
+				continue
+			}
+			for r := 0; r < 2; r++ {
+				it := pick(fam)
+				root, _, err := refcbor.Decode(it.bytes)
+				if err != nil {
+					continue
+				}
+				forceWidth(root, w)
+				b := refcbor.Encode(root)
+				for l := 0; l <= len(b); l++ {
+					h.run(fam, fmt.Sprintf("truncation-of-width%d-encoding", w), b[:l])
+				}
+				c.Sig(fmt.Sprintf("%s|truncation-width%d|%s", fam, w, it.kind))
+			}
 		}
 	}
 	for _, s := range []string{``, `null`, `{}`, `[]`, `{"a":1,"a":2}`, `{"b":"x","b":"y","d":1}`, `{"y":"1","y":"2"}`, `{"psa-nonce":null}`, `{"psa-software-components":[null]}`,
